@@ -110,4 +110,12 @@ theorem C01_ssa_depth (c : SsaBuild.PCfg) (P : SsaBuild.Phis) (idom : Nat → Na
     (hlt : ∀ j, 0 < j → j < c.blocks.length → idom j < j) : SsaWalk.run c P idom ≠ .fuel :=
   SsaWalk.run_nofuel c P idom hlt
 
+/-- `utils/environment.rs`, `assert!(!self.variables.is_empty())` in `add_variable` and `remove_variable_block`, as used by the SSA
+    environment: the stack starts with one block (`RawEnvironment::default`), and whatever the walk over a subtree does — additions,
+    scopes pushed and popped around the children — the stack it leaves has the same blocks below the innermost one; in particular
+    it is never empty when a variable is added or a scope is closed -/
+theorem C01_ssa_scopes_nonempty {f : SsaWalk.Frames → SsaWalk.Frames} (h : SsaWalk.ScopeOps f)
+    (top : List (Ssa.Var × Nat)) (rest : SsaWalk.Frames) : ∃ top', f (top :: rest) = top' :: rest :=
+  SsaWalk.scopeOps_tail h top rest
+
 end Circomspect.C01
